@@ -1,7 +1,7 @@
 (* C05 — a peptide supports only the group holding all its proteins; score = best PEP.
    Statements only.  [Inv s] is C20's index invariant (holds in every reachable state). *)
 From PGF Require Import Base.Prelude Base.PyStr Base.StableSort Model.Fdr Model.Results Model.ProteinGroups
-  Model.Scoring Model.Competition Proofs.ProteinGroupsProofs Proofs.ResultsProofs Proofs.ScoringProofs Proofs.CompetitionProofs.
+  Model.Scoring Model.Competition Proofs.ProteinGroupsProofs Proofs.ResultsProofs Proofs.ScoringProofs Proofs.CompetitionProofs Proofs.RazorProofs.
 
 (* shared peptides discarded: a peptide is evidence for group k exactly when it has proteins, all of which
    are indexed to group k; otherwise it is ignored *)
@@ -29,6 +29,17 @@ Theorem C05_razor_single_protein : forall l md5 ps out,
   retain_most_observed l md5 ps = Ok out -> exists p, out = [p] /\ In p ps.
 Proof. exact razor_single_protein. Qed.
 Print Assumptions C05_razor_single_protein.
+
+(* ... and that protein is a maximum of the key (observed peptides, lower best PEP, md5, name): no protein of the peptide
+   has a larger key, hence none has more observed peptides, and none with as many has a lower best PEP *)
+Theorem C05_razor_protein_is_most_observed : forall l md5 ps out,
+  retain_most_observed l md5 ps = Ok out ->
+  exists p, out = [p] /\ In p ps /\
+    (forall q, In q ps -> razor_gtb l md5 q p = false) /\
+    (forall q, In q ps -> pcount l q <= pcount l p) /\
+    (forall q, In q ps -> pcount l q = pcount l p -> (pbest_min l p <= pbest_min l q)%Q).
+Proof. exact razor_is_maximal. Qed.
+Print Assumptions C05_razor_protein_is_most_observed.
 
 (* ... so it supports at most one group either way *)
 Theorem C05_at_most_one_group : forall c md5 s suppress l infos peps,
